@@ -61,6 +61,8 @@ type Case struct {
 	// harness/gqlgen (random schemas: interfaces, unions, enums, list/non-null nesting) instead of the
 	// kitchen-sink schema; Query is the printed (and possibly mutated) document.
 	Gen uint64 `json:"gen,omitempty"`
+	// WebSocket entries: raw frames sent before the operation ("!noinit": connection_init only afterwards)
+	Frames []string `json:"frames,omitempty"`
 }
 
 func (c Case) query() string { s, _ := strconv.Unquote(c.Query); return s }
@@ -79,9 +81,22 @@ var jsonPool = []string{`null`, `true`, `false`, `0`, `1`, `-1`, `2147483647`, `
 	`{"b":null}`, `{"zzz":1,"b":"x"}`, `{"b":"x","e":{"b":"y","e":{"e":null,"b":"z"}}}`, `[{"b":"s"},null]`, `{"b":5}`, `"\u0000\ud800"`, `[[[[[[1]]]]]]`}
 
 func genCase(seed int64, idx int) Case {
+	if idx < 4*len(wsDispatchKinds) {
+		c := dispatchCase(idx)
+		c.Idx = idx
+		return c
+	}
 	r := hx.NewRand(uint64(seed)*1000003 + uint64(idx)*7919 + 17)
 	c := Case{Idx: idx, WorldSeed: r.Uint64(), Mode: r.Intn(4), Async: r.Chance(1, 3), MaxCost: hx.Pick(r, []int{-1, -1, 0, 5, 1000, 1 << 62})}
-	c.Entry = hx.Pick(r, []string{"execute", "execute", "execute", "execute", "pv", "subscribe", "http-get", "http-post", "http-graphql"})
+	c.Entry = hx.Pick(r, []string{"execute", "execute", "execute", "execute", "pv", "subscribe", "http-get", "http-post", "http-graphql", "ws-old", "ws-new"})
+	if strings.HasPrefix(c.Entry, "ws-") && r.Chance(1, 3) {
+		for n := r.Range(1, 3); n > 0; n-- {
+			c.Frames = append(c.Frames, hx.Pick(r, wsJunkFrames))
+		}
+		if r.Chance(1, 8) {
+			c.Frames = append(c.Frames, "!noinit")
+		}
+	}
 	q := hx.Pick(r, seedQueries)
 	k := r.Intn(100)
 	if r.Chance(1, 6) {
@@ -119,6 +134,9 @@ func genCase(seed int64, idx int) Case {
 		return c
 	}
 	switch {
+	case r.Chance(1, 25):
+		c.Kind = "cyclic"
+		q = genCyclic(r)
 	case k < 10:
 		c.Kind = "seed"
 	case k < 48:
@@ -318,6 +336,70 @@ func genCase(seed int64, idx int) Case {
 	return c
 }
 
+// genCyclic builds small fragment graphs in which cycles are likely, under every operation type, with the
+// spreads at the root, below a field, and behind inline fragments: every rule that follows spreads (cycle search,
+// merge check, subscription root-field count, variable usages, cost walk, field collection) meets them.
+func genCyclic(r *hx.Rand) string {
+	opType := hx.Pick(r, []string{"query", "query", "mutation", "subscription", "subscription"})
+	root := map[string]string{"query": "Query", "mutation": "Mutation", "subscription": "Subscription"}[opType]
+	head := hx.Pick(r, []string{opType + " ", opType + " Op ", opType + " Op($v: Boolean = true) "})
+	if opType == "query" && r.Bool() {
+		head = ""
+	}
+	n := r.Range(1, 5)
+	onObj := r.Bool()
+	typ := root
+	if onObj {
+		typ = "Obj"
+	}
+	spread := func() string {
+		sp := fmt.Sprintf("...F%d", r.Intn(n))
+		if strings.Contains(head, "$v") && r.Chance(1, 4) {
+			sp += " @include(if: $v)"
+		}
+		switch r.Intn(5) {
+		case 0:
+			return "... on " + typ + " { " + sp + " }"
+		case 1:
+			return "... { " + sp + " }"
+		case 2:
+			if onObj || root != "Subscription" {
+				if onObj {
+					return hx.Pick(r, []string{"obj", "objNN", "a: obj"}) + " { " + sp + " }"
+				}
+			}
+		}
+		return sp
+	}
+	var sb strings.Builder
+	sb.WriteString(head)
+	leaf := "int"
+	if !onObj && root == "Subscription" {
+		leaf = "tick"
+	}
+	if onObj {
+		sb.WriteString("{ " + hx.Pick(r, []string{"obj", "objNN"}) + " { " + spread() + " } }")
+		if root == "Subscription" {
+			s := sb.String()
+			sb.Reset()
+			sb.WriteString(strings.Replace(s, "objNN", "obj", 1))
+		}
+	} else {
+		sb.WriteString("{ " + spread() + hx.Pick(r, []string{"", " " + leaf, " " + spread()}) + " }")
+	}
+	for i := 0; i < n; i++ {
+		fmt.Fprintf(&sb, " fragment F%d on %s { ", i, typ)
+		if r.Bool() {
+			sb.WriteString(leaf + " ")
+		}
+		for k := r.Range(1, 2); k > 0; k-- {
+			sb.WriteString(spread() + " ")
+		}
+		sb.WriteString("}")
+	}
+	return sb.String()
+}
+
 // ---- running one case ---------------------------------------------------------------------------
 
 var (
@@ -334,7 +416,8 @@ func setup() {
 	theSchema = s
 	// the same field set behind apifu's HTTP entry point
 	theWorld = &world{r: hx.NewRand(1)}
-	cfg := &apifu.Config{}
+	cfg := &apifu.Config{Logger: quietLogger()}
+	addSubscriptions(cfg, s)
 	q := s.QueryType()
 	for name, def := range q.Fields {
 		if name != "node" && name != "nodes" { // apifu defines these itself
@@ -447,6 +530,8 @@ func runCase(c Case) (fail string) {
 		}
 		req.InitialValue = v
 		return checkResponse(graphql.Execute(req))
+	case "ws-old", "ws-new":
+		return runWS(c, w)
 	default:
 		// apifu installs its own idle handler, which only knows promises made by apifu.Go/Batch:
 		// raw promises of the world would never be fulfilled, so HTTP cases resolve synchronously
@@ -765,7 +850,7 @@ func main() {
 		if l.Fail != "" {
 			sg := signature(l.Fail)
 			run.Count("failure:" + sg)
-			if (l.Class == "hang" || l.Class == "crash") && run.Distribution("failure:"+sg) >= 3 {
+			if (l.Class == "hang" || l.Class == "crash" || strings.HasPrefix(l.Fail, "websocket operation not answered")) && run.Distribution("failure:"+sg) >= 3 {
 				atomic.StoreInt32(&abort, 1)
 			}
 			if sigSeen[sg] >= 2 {
@@ -866,7 +951,11 @@ func main() {
 		replies, err := m.AskAll(admReqs)
 		bad := ""
 		for i, rep := range replies {
-			run.Count("envelope:" + strings.Join(strings.Fields(admReqs[i])[1:5], ","))
+			if f := strings.Fields(admReqs[i]); strings.HasPrefix(f[0], "(ws") {
+				run.Count("model:" + strings.Join(f[:3], " "))
+			} else {
+				run.Count("envelope:" + strings.Join(f[1:5], ","))
+			}
 			if rep != "true" && bad == "" {
 				bad = fmt.Sprintf("response shape not admitted by the envelope model: %s → %s (query %s)", admReqs[i], rep, truncate(admCases[i].query(), 200))
 				run.Violate("correspondence", bad, "", true, admCases[i])
